@@ -236,10 +236,12 @@ func (c *check) runDoc(ctx *engine.Ctx, outer string, probes []probe, baseFeats 
 	}
 }
 
-func usesFontRelativeXUnit(v string) bool {
+func hasCSSWideKeyword(v string) bool {
 	for _, p := range lexValue(v) {
-		if p.kind == kNum && (p.unit == "ex" || p.unit == "ch") {
-			return true
+		if p.kind == kIdent && p.depth == 0 {
+			if l := strings.ToLower(p.text); l == "inherit" || l == "initial" || l == "unset" {
+				return true
+			}
 		}
 	}
 	return false
@@ -276,32 +278,38 @@ func (c *check) runCProp(prop string, ctx *engine.Ctx) {
 	pi := c.enumerateLight(ctx, prop)
 	// values: accepted one-token values over (core tokens + keywords); thorough: + two-token values
 	type val struct {
-		v string
-		n int
+		v    string
+		n    int
+		last string // last token of a two-token value
 	}
 	var vals []val
 	for _, s := range pi.singles {
-		if l := strings.ToLower(s); l == "inherit" || l == "initial" {
+		if s == "," || s == "/" {
+			// a lone separator is no value of any grammar (some validators let it through)
+			continue
+		}
+		if hasCSSWideKeyword(s) {
 			// CSS-wide keywords given to a custom property apply to the custom property
 			// itself; they are not tokens to substitute (left open by the property)
 			continue
 		}
-		if usesFontRelativeXUnit(s) {
-			// font-size: 1ex, tab-size: 1ch ... kill the process on their own (direct spelling,
-			// unrelated to var()): not explored here
-			ctx.Count("c:values-with-ex-ch-units-skipped", 1)
-			continue
-		}
-		vals = append(vals, val{s, 1})
+		vals = append(vals, val{s, 1, ""})
 	}
-	if c.thorough {
-		lim := 600
+	{
+		lim := 40
+		if c.thorough {
+			lim = 600
+		}
 		for i, s := range pi.acc2 {
+			if l := pi.acc2last[i]; hasCSSWideKeyword(s) || l == "," || l == "/" || strings.HasPrefix(s, ", ") || strings.HasPrefix(s, "/ ") {
+				// values that begin or end with a separator are in no grammar
+				continue
+			}
 			if i >= lim {
 				ctx.Count("c:two-token-values-beyond-cap", int64(len(pi.acc2)-lim))
 				break
 			}
-			vals = append(vals, val{s, 2})
+			vals = append(vals, val{s, 2, pi.acc2last[i]})
 		}
 	}
 	if len(vals) == 0 {
@@ -369,10 +377,9 @@ func (c *check) runCProp(prop string, ctx *engine.Ctx) {
 		for i, b := range bad {
 			probes = append(probes, probe{class: fmt.Sprintf("f6%d", i), style: "--x: " + b + "; " + P + ": var(--x)", expect: "dflt", feats: []string{"var-ill-typed"}, what: "ill-typed"})
 		}
-		if v.n == 2 {
-			if sp := strings.LastIndex(v.v, " "); sp > 0 && !strings.ContainsAny(v.v, "(") {
-				probes = append(probes, probe{class: "f17", style: "--x: " + v.v[sp+1:] + "; " + P + ": " + v.v[:sp] + " var(--x)", expect: "ref", feats: []string{"var-partial"}, what: "partial"})
-			}
+		if v.n == 2 && !strings.ContainsAny(v.last, "(,/") {
+			first := strings.TrimSuffix(v.v, " "+v.last)
+			probes = append(probes, probe{class: "f17", style: "--x: " + v.last + "; " + P + ": " + first + " var(--x)", expect: "ref", feats: []string{"var-partial"}, what: "partial"})
 		}
 		c.runDoc(ctx, outer, probes, bf, true)
 	}
@@ -696,7 +703,7 @@ func (c *check) describeC(u int64) any {
 	cu := c.cUnits[u]
 	switch cu.kind {
 	case "prop":
-		return map[string]any{"part": "c", "property": cu.prop, "explored": "every accepted one-token value (thorough: two-token values too) routed through custom properties in 15-20 forms"}
+		return map[string]any{"part": "c", "property": cu.prop, "explored": "every accepted one-token value and the first 40 (thorough: 600) accepted two-token values, routed through custom properties in 15-20 forms"}
 	case "graph":
 		var l []string
 		for _, k := range cu.graph {
